@@ -295,3 +295,22 @@ def C04(run):
 def C07(run):
     run.model_check("MCSnap", "MCSnap_quick.cfg", workers=8)
     _system_common(run, "C07:", "subsets")
+
+
+def C03(run):
+    q = run.tier == "quick"
+    # store level: ApplyDeltasReverse restores the pre-block content (undo events of the store chains)
+    _mc_store(run, "quick" if q else "thorough")
+    _store_trace(run, "C03:")
+    # pipeline level: fork histories produced by the real bstream/forkable, through the real tier1 pipeline
+    _system_trace(run, "C03:", "forks", n=(24 if q else 700))
+    run.cov["rule"] = ("fork histories: random fork trees over 2..5 heights (1..2 branches per height, extra extensions, and 'ping-pong' "
+                       "histories where two branches alternately overtake each other so that the same blocks are applied, undone, "
+                       "re-applied and undone again), random parent-first arrival order and finality progress, turned into new / undo / "
+                       "irreversible / stalled steps by the REAL bstream/forkable and fed to the real tier1 pipeline (development and "
+                       "production mode, start at, below or above the first forked height) on generated module programs whose stores "
+                       "create, update, grow, shrink and delete keys; after every step the store map and sizes are logged; the response "
+                       "stream is replayed by the client model of TraceSystem.tla. Plus the undo events of the store driver. "
+                       "Non-trivial = more than 3 fork steps; distinct by content.")
+    run.assumptions += ["bstream/forkable is trusted as the producer of steps", "no fork branches directly off the initial LIB block "
+                        "(forkable reports no junction for it when initialised from a bare reference: harness artefact)"]
